@@ -272,6 +272,9 @@ func applyMut(dir string, m *Mut) error {
 // process creates); len(name) and, in 9P2000.u for symlinks, len(target)
 // are the only varying parts of a record.
 
+// calibrate never fails because of the server: when the probe listing does
+// not work (which the checks proper will report as a violation) a generous
+// fixed K is used so that generation can go on.
 func calibrate(dotu bool) (int, error) {
 	envMu.Lock()
 	k, ok := calK[dotu]
@@ -279,6 +282,25 @@ func calibrate(dotu bool) (int, error) {
 	if ok {
 		return k, nil
 	}
+	k, err := measureK(dotu)
+	if err != nil {
+		var he *harnessErr
+		if !errors.As(err, &he) {
+			return 0, err
+		}
+		hx.Label("calibration probe failed, fixed K used")
+		k = 49 + 3*(2+14)
+		if dotu {
+			k += 14
+		}
+	}
+	envMu.Lock()
+	calK[dotu] = k
+	envMu.Unlock()
+	return k, nil
+}
+
+func measureK(dotu bool) (int, error) {
 	b, err := base()
 	if err != nil {
 		return 0, err
@@ -304,15 +326,14 @@ func calibrate(dotu bool) (int, error) {
 	if err != nil || r.Type != ref9p.Rread {
 		return 0, hErr("calibration read failed: %v %v", err, r)
 	}
+	if len(r.Data) == 0 {
+		return 0, hErr("calibration read returned nothing")
+	}
 	st, n, err := ref9p.DecodeStat(r.Data, s.dotu)
 	if err != nil || n != len(r.Data) || st.Name != "p" {
 		return 0, hErr("calibration record does not decode: %v", err)
 	}
-	k = n - 1
-	envMu.Lock()
-	calK[dotu] = k
-	envMu.Unlock()
-	return k, nil
+	return n - 1, nil
 }
 
 func recSize(k int, e Ent, dotu bool) int {
@@ -722,6 +743,15 @@ func runClnt(c *Case, u *go9p.Ufs, dir string, ents []Ent, res *result) error {
 		if len(missing) > 0 {
 			return viol("Readdir(0) #%d (msize %d, dotu=%v) returned %d of %d entries; missing: %s", i, clnt.Msize, clnt.Dotu, len(dirs), len(expected), someNames(missing))
 		}
+		// the File now stands at the end of the listing: reading on must not
+		// return any entry a second time
+		more, err := file.Readdir(0)
+		if err != nil {
+			return viol("Readdir(0) #%d listed all %d entries, a further Readdir(0) on the same File failed: %v", i, len(expected), err)
+		}
+		if len(more) > 0 {
+			return viol("Readdir(0) #%d listed all %d entries, a further Readdir(0) on the same File returned %d more, first %q", i, len(expected), len(more), more[0].Name)
+		}
 		ps := passStats{records: len(dirs), complete: true}
 		if total > int(clnt.Msize)-ioHdr {
 			ps.nonEmpty = 2 // needed more than one read
@@ -1001,6 +1031,9 @@ func genConfig(t *rapid.T, c *Case, largest func(dotu bool) int) (dotu bool, max
 	}
 	dotu = c.SrvDotu && c.CliDotu
 	need := uint32(largest(dotu) + ioHdr)
+	if need < 256 {
+		need = 256 // the property's msize range starts at 256
+	}
 	var ok []uint32
 	for _, m := range msizes {
 		if m >= need {
@@ -1175,7 +1208,7 @@ func genMut(t *rapid.T, b budget, label string) *Mut {
 // mid-listing and after adding/removing an entry, raw reads.
 func TestPropRaw(t *testing.T) {
 	defer dropBase()
-	hx.Check(t, "raw", hx.N(260, 1500), func(t *rapid.T) {
+	hx.Check(t, "raw", hx.N(400, 1500), func(t *rapid.T) {
 		c := &Case{Kind: "raw"}
 		var b budget
 		c.Ents, b = genDir(t, 90)
@@ -1215,7 +1248,7 @@ func TestPropRaw(t *testing.T) {
 // TestPropClnt: File.Readdir(0) through the go9p client.
 func TestPropClnt(t *testing.T) {
 	defer dropBase()
-	hx.Check(t, "clnt", hx.N(120, 700), func(t *rapid.T) {
+	hx.Check(t, "clnt", hx.N(200, 700), func(t *rapid.T) {
 		c := &Case{Kind: "clnt"}
 		var b budget
 		c.Ents, b = genDir(t, 120)
@@ -1314,10 +1347,7 @@ func TestEnumCounts(t *testing.T) {
 			cfgs = append(cfgs, enumCfg{d, 4096, dotu})
 		}
 		cfgs = append(cfgs, enumCfg{"2eq", 256, dotu}, enumCfg{"50short", 256, dotu}, enumCfg{"50short", 512, dotu},
-			enumCfg{"50", 4096, dotu})
-		if hx.Thorough() {
-			cfgs = append(cfgs, enumCfg{"50", 65536, dotu}, enumCfg{"50short", 4096, dotu}, enumCfg{"1long", 512, dotu}, enumCfg{"2", 1024, dotu})
-		}
+			enumCfg{"50", 4096, dotu}, enumCfg{"50", 65536, dotu}, enumCfg{"50short", 4096, dotu}, enumCfg{"1long", 512, dotu}, enumCfg{"2", 1024, dotu})
 	}
 	n := 0
 	for _, cf := range cfgs {
@@ -1340,30 +1370,66 @@ func TestEnumCounts(t *testing.T) {
 		if hi > max {
 			hi = max
 		}
-		step := 1
-		if !hx.Thorough() && len(es) >= 50 && !cf.dotu {
-			step = 3 // plain 9P2000 does two passwd lookups per entry and snapshot: thin out in the quick tier
+		mk := func(cnts []int) *Case {
+			c := &Case{Kind: "raw", SrvDotu: cf.dotu, CliDotu: true, SrvMsize: cf.msize, CliMsize: cf.msize, Ents: es,
+				Desc: fmt.Sprintf("fixed directory %q, one listing per constant count %v (largest record %d)", cf.dir, cnts, l)}
+			for _, cnt := range cnts {
+				c.Passes = append(c.Passes, Pass{Counts: []uint32{uint32(cnt)}, Retry: uint32(l)})
+			}
+			return c
+		}
+		// one case lists the directory once per count of a chunk (the
+		// directory is built once per case); a failing chunk is re-run count
+		// by count so that the replay holds a single listing
+		var chunk []int
+		flush := func() bool {
+			if len(chunk) == 0 {
+				return true
+			}
+			cnts := chunk
+			chunk = nil
+			c := mk(cnts)
+			hx.Journal("enum-counts", c)
+			res, err := RunCase(c)
+			if err == nil {
+				for i := range cnts {
+					one := mk(cnts[i : i+1])
+					r1 := res
+					r1.passes = res.passes[i : i+1]
+					r1.nontrivial = res.passes[i].complete && res.passes[i].nonEmpty >= 2
+					account("enum-counts", one, r1)
+				}
+				hx.Sample("enum-counts", sampleOf(c))
+				return true
+			}
+			for _, cnt := range cnts {
+				if !execEnum(t, "enum-counts", mk([]int{cnt})) {
+					return false
+				}
+			}
+			// the chunk failed, no single listing did
+			return execEnum(t, "enum-counts", c)
 		}
 		for cnt := 0; cnt <= hi; cnt++ {
 			n++
-			if n%hx.NShards != hx.Shard {
+			if (n/enumChunk)%hx.NShards != hx.Shard {
 				continue
 			}
-			if step > 1 && cnt%step != 0 && cnt != l && cnt != l-1 && cnt != hi {
-				continue
-			}
-			c := &Case{Kind: "raw", SrvDotu: cf.dotu, CliDotu: true, SrvMsize: cf.msize, CliMsize: cf.msize, Ents: es,
-				Passes: []Pass{{Counts: []uint32{uint32(cnt)}, Retry: uint32(l)}},
-				Desc:   fmt.Sprintf("fixed directory %q, constant count %d (largest record %d)", cf.dir, cnt, l)}
-			if !execEnum(t, "enum-counts", c) {
-				return
+			chunk = append(chunk, cnt)
+			if len(chunk) >= enumChunk {
+				if !flush() {
+					return
+				}
 			}
 		}
-		if step == 1 {
-			hx.Exhaustive(fmt.Sprintf("directory %q (%d entries) dotu=%v msize=%d: every constant count 0..%d (largest record %d, three largest %d)", cf.dir, len(es), cf.dotu, cf.msize, hi, l, s3))
+		if !flush() {
+			return
 		}
+		hx.Exhaustive(fmt.Sprintf("directory %q (%d entries) dotu=%v msize=%d: every constant count 0..%d (largest record %d, three largest %d)", cf.dir, len(es), cf.dotu, cf.msize, hi, l, s3))
 	}
 }
+
+const enumChunk = 24
 
 // TestBigDirs (thorough tier): directories of thousands of entries.
 func TestBigDirs(t *testing.T) {
